@@ -18,6 +18,10 @@ class Family(object):
     def normalize_model(self, line):
         return line
 
+    def discard(self, raw, c):
+        """True if the model's raw answer says the case is outside what the model covers (counted, not compared)."""
+        return 'UNMODELLED' in raw
+
     def oracle(self, c, obs):
         """Property oracles on the implementation alone: [(property_id, signature, what)]."""
         return []
